@@ -29,6 +29,7 @@ import (
 const (
 	kfVoteFields = "KF-C19-electionvote-unsigned-fields"
 	kfTimestamp  = "KF-C19-commit-timestamp-unsigned"
+	kfReplace    = "KF-C19-relayed-proposal-replaces-honest"
 )
 
 type rd struct{ t *rapid.T }
@@ -66,20 +67,28 @@ type runResult struct {
 
 // runScenario executes the script. mutate (optional) replaces the message with id `target` for the receivers in `only`
 // (nil = all receivers) by `mutant`.
-func runScenario(sc scenario, target int, mutant *bft.Message, only map[int]bool, alsoOriginal bool) *runResult {
+func runScenario(sc scenario, target int, mutant *bft.Message, only map[int]bool, order int) *runResult {
+	return runScenarioDrop(sc, target, mutant, only, order, false)
+}
+
+// runScenarioDrop: with drop=true the target message is lost for the receivers in `only` (nil = all) instead of replaced.
+func runScenarioDrop(sc scenario, target int, mutant *bft.Message, only map[int]bool, order int, drop bool) *runResult {
 	o := rigOpts{n: 4, height: sc.height, rootH: sc.height}
 	if sc.evidence {
 		ks, vs := rigValidatorSet(4)
 		o.evidence = map[int][]*bft.DoubleSignEvidence{1: {makeDSE(ks, vs, sc.height-1, sc.height-1, []int{0, 1, 2}, []int{2, 3}, "e1")}}
 	}
 	r := newRig(o)
-	r.alsoOriginal = alsoOriginal
+	r.order = order
 	r.hook = func(e *env, to int) (*bft.Message, bool) {
 		if sc.lock && e.kind == "COMMIT" && e.msg.Header.Round == 0 {
 			return nil, true // the COMMIT of round 0 never arrives
 		}
 		if sc.partial > 0 && e.kind == "PRECOMMIT" && e.msg.Header.Round == 0 && to != sc.partial {
 			return nil, true // the PRECOMMIT of round 0 reaches a single replica
+		}
+		if drop && e.id == target && (only == nil || only[to]) {
+			return nil, true
 		}
 		if mutant != nil && e.id == target && (only == nil || only[to]) {
 			return mutant, false
@@ -107,7 +116,7 @@ func baseline(sc scenario) *runResult {
 	if b, ok := baseRuns[sc.name]; ok {
 		return b
 	}
-	b := runScenario(sc, -1, nil, nil, false)
+	b := runScenario(sc, -1, nil, nil, orderReplace)
 	baseRuns[sc.name] = b
 	return b
 }
@@ -120,6 +129,17 @@ func decisions(tr []string) []string {
 			continue
 		}
 		out = append(out, l)
+	}
+	return out
+}
+
+// external filters a trace down to what leaves a replica: the messages it sends and the certificates it commits.
+func external(tr []string) []string {
+	var out []string
+	for _, l := range tr {
+		if strings.Contains(l, " Send(") || strings.Contains(l, " Commit(") {
+			out = append(out, l)
+		}
 	}
 	return out
 }
@@ -220,6 +240,23 @@ func TestC19aReceiver(t *testing.T) {
 				mutant = proto.Clone(e.msg).(*bft.Message)
 				mutant.LastDoubleSignEvidence = append(mutant.LastDoubleSignEvidence, makeDSE(ks, vs, sc.height-1, sc.height-1, []int{0, 1, 3}, []int{2, 3}, "x"))
 				desc = "last_double_sign_evidence:append-authentic-evidence"
+			case site.Field() == "qc.block" && e.msg.Header != nil && len(e.msg.Qc.GetBlock()) > 0 && rapid.IntRange(0, 1).Draw(rt, "unbound-region") == 0:
+				// a bit flip where QuorumCertificate.CheckBasic does not look: Block.BytesToBlockHash hashes the raw header bytes
+				// without the header's hash field, so flips in that field (and in transactions / framing) keep the comparison true
+				orig, _ := new(lib.Block).BytesToBlockHash(e.msg.Qc.Block)
+				for try := 0; try < 64 && mutant == nil; try++ {
+					blk := append([]byte(nil), e.msg.Qc.Block...)
+					i, bit := rapid.IntRange(0, len(blk)-1).Draw(rt, "byte"), rapid.IntRange(0, 7).Draw(rt, "bit")
+					blk[i] ^= 1 << uint(bit)
+					if h, err := new(lib.Block).BytesToBlockHash(blk); err == nil && bytes.Equal(h, orig) {
+						mutant = proto.Clone(e.msg).(*bft.Message)
+						mutant.Qc.Block = blk
+						desc = fmt.Sprintf("qc.block:flip-where-CheckBasic-does-not-look(byte %d bit %d)", i, bit)
+					}
+				}
+				if mutant == nil {
+					continue
+				}
 			case site.Field() == "qc.block" && e.msg.Header == nil && rapid.IntRange(0, 1).Draw(rt, "authentic") == 0:
 				// class B: a well-formed block (not the one the committee is working on) attached to a vote
 				mutant = proto.Clone(e.msg).(*bft.Message)
@@ -259,10 +296,11 @@ func TestC19aReceiver(t *testing.T) {
 			only = map[int]bool{to: true}
 			mode = fmt.Sprintf("receiver-%d", to)
 		}
-		also := rapid.Bool().Draw(rt, "honest-copy-follows")
+		order := rapid.IntRange(0, 2).Draw(rt, "delivery-order")
+		also := []string{"relay-copy-only", "relay-copy-then-honest-copy", "honest-copy-then-relay-copy"}[order]
 		isVoteField := e.kind == "ELECTION_VOTE" && unsignedVoteField(site)
 		isTimestamp := e.kind == "COMMIT" && site.Field() == "timestamp"
-		c.Desc("%s msg#%d %s from r%d: %s -> %s honest-copy-follows=%v", sc.name, e.id, e.kind, e.from, desc, mode, also)
+		c.Desc("%s msg#%d %s from r%d: %s -> %s delivery=%s", sc.name, e.id, e.kind, e.from, desc, mode, also)
 		c.Class("kind=" + e.kind)
 		c.Class("scenario=" + sc.name)
 		c.ClassIf(sigValid && site.Top() != "signature", "mutant-keeps-valid-signature")
@@ -273,13 +311,20 @@ func TestC19aReceiver(t *testing.T) {
 			c.Done(false)
 			return
 		}
+		if order == orderHonestFirst && e.msg.Header != nil && strings.HasPrefix(site.Field(), "qc.block") && openFinding(kfReplace) {
+			// open finding: a relayed copy whose block differs only where CheckBasic does not look replaces the stored proposal
+			rec.Exclude(kfReplace)
+			c.Class("excluded:" + kfReplace)
+			c.Done(false)
+			return
+		}
 		if isTimestamp && openFinding(kfTimestamp) {
 			rec.Exclude(kfTimestamp)
 			c.Class("excluded:" + kfTimestamp)
 			c.Done(false)
 			return
 		}
-		res := runScenario(sc, e.id, mutant, only, also)
+		res := runScenario(sc, e.id, mutant, only, order)
 		accepted, rejected := 0, 0
 		for _, errText := range res.accepted {
 			if errText == "" {
@@ -298,7 +343,20 @@ func TestC19aReceiver(t *testing.T) {
 		}
 		a, b := decisions(base.trace), decisions(res.trace)
 		if diff := firstDiff(a, b); diff != "" {
-			replay := saveReplay(rec, "receiver", fmt.Sprintf("scenario=%s\nmessage #%d %s from replica %d\nmutation=%s mode=%s honest-copy-follows=%v\noriginal: %s\nmutant  : %s\nfirst difference:%s\n\n--- original run ---\n%s\n\n--- mutant run ---\n%s\n",
+			if order != orderHonestFirst {
+				// a relay can always withhold the copy it forwards. If everything the replicas SAY and COMMIT equals the run in
+				// which the message is simply lost for the same receivers, the field was bound after all - only later than
+				// HandleMessage (e.g. the block of a PROPOSE: CheckBasic binds the header bytes, the validation that follows
+				// binds the rest) - and the mutant achieved nothing a dropped message does not achieve.
+				lost := runScenarioDrop(sc, e.id, nil, only, orderReplace, true)
+				if firstDiff(external(lost.trace), external(res.trace)) == "" {
+					c.Class("accepted-then-rejected-by-validation(bound late, equals message loss)")
+					c.Class("bound-late:" + e.kind + "." + site.Field())
+					c.Done(site.Top() != "signature")
+					return
+				}
+			}
+			replay := saveReplay(rec, "receiver", fmt.Sprintf("scenario=%s\nmessage #%d %s from replica %d\nmutation=%s mode=%s delivery=%s\noriginal: %s\nmutant  : %s\nfirst difference:%s\n\n--- original run ---\n%s\n\n--- mutant run ---\n%s\n",
 				sc.name, e.id, e.kind, e.from, desc, mode, also, describeMsg(e.msg), describeMsg(mutant), diff, strings.Join(base.trace, "\n"), strings.Join(res.trace, "\n")))
 			rt.Fatalf("a relay rewrote %s of replica %d's signed %s message (%s); the receiver ACCEPTED it (sender's signature still valid) and the replicas then behaved differently:%s\n(full traces: %s)",
 				site.Field(), e.from, e.kind, desc, diff, replay)
